@@ -56,6 +56,10 @@ class Check:
         self.samples = []
         self.replayed = 0
         self.cross = None
+        self.smt2 = []
+        if tier == "thorough" or os.environ.get("VERIF_CROSS"):
+            from . import core as _core
+            _core.DUMP_EVERY = int(os.environ.get("VERIF_CROSS_EVERY", "20"))
         try:
             with open(KNOWN) as f:
                 self.known = json.load(f)
@@ -83,6 +87,9 @@ class Check:
                  replayed_on_real_code=acc.replayed)
         self.sections.append(s)
         self.replayed += acc.replayed
+        for t in acc.smt2:
+            if len(self.smt2) < 300:
+                self.smt2.append(t)
         for x in acc.samples[:6]:
             self.samples.append({"harness": name, "case": x})
         print("  [%s] %s: paths=%d forks=%d vcs=%d failed=%d queries=%d solver=%.1fs wall=%.1fs%s" % (
@@ -182,6 +189,15 @@ class Check:
 
     # -- finish
     def finish(self, level="model_checking", rule=None, extra=None):
+        if self.smt2:
+            try:
+                self.cross = cross_check_cvc5(self.smt2)
+                self.cross["solver"] = "cvc5 (python API), re-deciding sampled VCs that z3 discharged (expected unsat)"
+                print("  [%s] second solver: %s" % (self.pid, self.cross), flush=True)
+                if self.cross["disagree"]:
+                    self.harness_error("cvc5 found a VC satisfiable that z3 discharged: %d disagreements" % self.cross["disagree"])
+            except Exception as e:
+                self.cross = {"error": "%s: %s" % (type(e).__name__, e)}
         wall = time.time() - self.t0
         paths = sum(s["paths"] for s in self.sections)
         forks = sum(s["two_sided_forks"] for s in self.sections)
